@@ -98,6 +98,58 @@ pub trait Harness {
 			Tier::Thorough => 1024,
 		}
 	}
+	/// An execution that does not come back (the subject spins inside one poll, which no
+	/// scheduler can preempt) is a violation of a liveness-type property; for a pure
+	/// safety property it is only a run without verdict.
+	fn hang_is_violation(&self) -> bool {
+		true
+	}
+}
+
+/// Wall-clock limit for ONE execution (normally 10 us - 1 ms).
+pub const HANG_LIMIT_S: u64 = 20;
+
+struct Watch {
+	started: Instant,
+	scenario: Value,
+	bounds: Option<Bounds>,
+	prefix: Vec<Point>,
+	armed: bool,
+}
+
+fn spawn_watchdog(state: std::sync::Arc<std::sync::Mutex<Watch>>, property: String, harness: String, out: Option<PathBuf>, is_violation: bool) {
+	std::thread::spawn(move || loop {
+		std::thread::sleep(Duration::from_millis(500));
+		let w = state.lock().unwrap();
+		if w.armed && w.started.elapsed() > Duration::from_secs(HANG_LIMIT_S) {
+			let rec = ViolationRec {
+				property: property.clone(),
+				key: format!("{property}/execution-never-returns"),
+				detail: format!(
+					"one execution did not come back within {HANG_LIMIT_S} s of wall time: the subject loops without yielding (a schedule-independent livelock inside a single poll)"
+				),
+				harness: harness.clone(),
+				scenario: w.scenario.clone(),
+				bounds: w.bounds,
+				choices: w.prefix.clone(),
+				log: vec![],
+				count: 1,
+			};
+			match &out {
+				Some(p) => {
+					let hang = PathBuf::from(format!("{}.hang.json", p.display()));
+					let _ = std::fs::write(&hang, serde_json::json!({"violation": is_violation, "rec": rec}).to_string());
+				}
+				None => {
+					// replay mode
+					println!("scenario: {}", rec.scenario);
+					println!("violated: {}: {}", rec.key, rec.detail);
+					println!("VIOLATION property={property} replay=<this file>");
+				}
+			}
+			std::process::exit(if out.is_some() { 3 } else { 1 });
+		}
+	});
 }
 
 pub struct Args {
@@ -182,6 +234,8 @@ pub fn worker_main<H: Harness>(h: &H, args: &Args) -> WorkerResult {
 	let order = shuffle_order(scs.len(), args.seed);
 	let mine: Vec<usize> = order.into_iter().enumerate().filter(|(pos, _)| pos % wn == wi).map(|(_, i)| i).collect();
 	let mut res = WorkerResult::default();
+	let watch = std::sync::Arc::new(std::sync::Mutex::new(Watch { started: Instant::now(), scenario: Value::Null, bounds: None, prefix: vec![], armed: false }));
+	spawn_watchdog(watch.clone(), h.property().to_string(), h.name().to_string(), args.out.clone(), h.hang_is_violation());
 	let mut seen: HashSet<u64> = HashSet::new();
 	let mut seen_nt: HashSet<u64> = HashSet::new();
 	// passes are the outer loop so that "level completed" is meaningful across scenarios
@@ -226,7 +280,17 @@ pub fn worker_main<H: Harness>(h: &H, args: &Args) -> WorkerResult {
 					if std::env::var("VERIF_TRACE").as_deref() == Ok("2") {
 						eprintln!("  prefix {}", serde_json::to_string(prefix).unwrap_or_default());
 					}
-					match h.run(sc, *bounds, prefix) {
+					{
+						let mut w = watch.lock().unwrap();
+						w.started = Instant::now();
+						w.scenario = sc_json.clone();
+						w.bounds = Some(*bounds);
+						w.prefix = prefix.to_vec();
+						w.armed = true;
+					}
+					let r = h.run(sc, *bounds, prefix);
+					watch.lock().unwrap().armed = false;
+					match r {
 					Ok(e) => e,
 					Err(m) => {
 						run_err.get_or_insert(m);
@@ -483,6 +547,26 @@ pub fn orchestrate(harness_name: &str, property: &str, args: &Args, extra_args: 
 					merged.machinery = w.machinery;
 				}
 			}
+			(Some(s), _) if s.code() == Some(3) => {
+				// the worker's watchdog fired: an execution never returned
+				let hang = PathBuf::from(format!("{}.hang.json", out.display()));
+				let parsed: Option<Value> = std::fs::read_to_string(&hang).ok().and_then(|s| serde_json::from_str(&s).ok());
+				merged.capped = true;
+				match parsed {
+					Some(v) => {
+						let rec: Option<ViolationRec> = serde_json::from_value(v["rec"].clone()).ok();
+						if let (true, Some(rec)) = (v["violation"].as_bool().unwrap_or(false), rec) {
+							notes.push(format!("a worker stopped because one execution never returned: {}", rec.scenario));
+							merged.violations.entry(rec.key.clone()).or_insert(rec);
+						} else {
+							merged.machinery.get_or_insert("an execution never returned (the subject loops inside one poll); not a verdict for this property".to_string());
+						}
+					}
+					None => {
+						merged.machinery.get_or_insert("worker watchdog fired without a report".to_string());
+					}
+				}
+			}
 			(None, _) => {
 				merged.capped = true;
 				notes.push(format!("worker writing {} exceeded the hard wall cap and was killed", out.display()));
@@ -593,6 +677,8 @@ pub fn replay<H: Harness>(h: &H, path: &Path) -> i32 {
 		}
 	};
 	let bounds = v.bounds.unwrap_or(Bounds::k(0, explore::Policy::Fifo));
+	let watch = std::sync::Arc::new(std::sync::Mutex::new(Watch { started: Instant::now(), scenario: v.scenario.clone(), bounds: Some(bounds), prefix: v.choices.clone(), armed: true }));
+	spawn_watchdog(watch, h.property().to_string(), h.name().to_string(), None, true);
 	match h.run(&sc, bounds, &v.choices) {
 		Err(m) => {
 			eprintln!("machinery: {m}");
